@@ -1,2 +1,3 @@
 -- Root of the `ShkModel` library: every property module (which pulls in models and lemmas).
 import ShkModel.Props.C01
+import ShkModel.Props.C18
